@@ -161,3 +161,23 @@ func sortStrings(a []string) {
 		}
 	}
 }
+
+// MultiError mirrors appengine.MultiError.
+type MultiError []error
+
+func (m MultiError) Error() string {
+	n := 0
+	var first error
+	for _, e := range m {
+		if e != nil {
+			if n == 0 {
+				first = e
+			}
+			n++
+		}
+	}
+	if n == 0 {
+		return "(0 errors)"
+	}
+	return fmt.Sprintf("%v (and %d other errors)", first, n-1)
+}
